@@ -520,8 +520,21 @@ package server
 
 // idempotency guards: an operation whose epoch is not newer than the partition's epoch changes nothing;
 // otherwise the change is made and the partition's epoch becomes the operation's epoch
+// (C07) who counts as a witness of a leader failure: an in-sync follower of the CURRENT leader. A replica that is
+// dropped from the in-sync set stops being a witness, and when the leader changes the reports about the old leader
+// are forgotten - also a report that arrived while the change was in flight
+//@ ghost var appliedTo *partition
+//@ ghost var isrShrunk bool
+//@ ghost var leaderChanged bool
+//@ func (*failoverStatus).forget serves C07
+//@   requires f != nil
+//@   ensures [no-longer-a-witness] !(witness in f.witnesses)
 //@ func (*metadataAPI).RemoveFromISR serves C06, C07
 //@   requires m != nil
+//@   ghost at entry: ghost.isrShrunk := false
+//@   ghost after call GetPartition: ghost.appliedTo := ret0
+//@   ghost after call (*partition).RemoveFromISR: ghost.isrShrunk := ret0 == nil
+//@   ensures [C07:a-replica-dropped-from-the-in-sync-set-is-no-longer-a-witness] ghost.isrShrunk && (ghost.appliedTo in m.partitionFailovers) && m.partitionFailovers[ghost.appliedTo] != nil ==> !(replica in m.partitionFailovers[ghost.appliedTo].witnesses)
 //@   ghost after call GetEpoch: ghost.oldEpoch := ret0
 //@   call (*partition).RemoveFromISR requires [only-newer-epoch] ghost.oldEpoch < epoch && arg1 == replica
 //@   call SetEpoch requires [epoch-recorded] ghost.oldEpoch < epoch && arg1 == epoch
@@ -532,6 +545,10 @@ package server
 //@   call SetEpoch requires [epoch-recorded] ghost.oldEpoch < epoch && arg1 == epoch
 //@ func (*metadataAPI).ChangeLeader serves C06, C07
 //@   requires m != nil
+//@   ghost at entry: ghost.leaderChanged := false
+//@   ghost after call GetPartition: ghost.appliedTo := ret0
+//@   ghost after call SetLeader: ghost.leaderChanged := ret0 == nil
+//@   ensures [C07:reports-about-the-old-leader-are-forgotten] ghost.leaderChanged ==> !(ghost.appliedTo in m.partitionFailovers)
 //@   ghost after call GetEpoch: ghost.oldEpoch := ret0
 //@   call SetLeader requires [only-newer-epoch] ghost.oldEpoch < epoch && arg1 == leader && arg2 == epoch
 //@   call SetEpoch requires [epoch-recorded] ghost.oldEpoch < epoch && arg1 == epoch
